@@ -1774,6 +1774,13 @@ pub mod verif_hooks {
     }
 
     /// (primary connection id, secondary connection id) the service tracks for `peer`.
+    /// The effect of an expired keep-alive timer of this protocol: the connection is downgraded.
+    pub fn keep_alive_expired(service: &mut TransportService, peer: PeerId, connection_id: ConnectionId) {
+        if let Some(context) = service.connections.get_mut(&peer) {
+            context.downgrade(&connection_id);
+        }
+    }
+
     pub fn connections_of(service: &TransportService, peer: &PeerId) -> Option<(ConnectionId, Option<ConnectionId>)> {
         service.connections.get(peer).map(|context| {
             (*context.primary.connection_id(), context.secondary.as_ref().map(|handle| *handle.connection_id()))
